@@ -1,7 +1,8 @@
 """C09 — literals keep their value and print in ClickHouse's canonical form.
 Theorems: coq/Properties/C09.v — strings: for every byte string v, lexing quote(v) yields STRING v (over the lexer model)
 and the printer model renders it as canon_string v (two-level escaping), independent spec; integers: UInt64_/Int64_ ranges,
--0, overflow into the float branch, hex/binary by value, for ALL n; floats: the fixed/exponent layout of FormatFloat equals
+-0, overflow into the float branch, hex/binary/octal by value in every spelling (either letter case, leading zeros, '_'
+separators), for ALL n (from 2^64 on the float64 nearest to n: big.Int.SetString is transcribed); floats: the fixed/exponent layout of FormatFloat equals
 an independent canon_float for every digit string and exponent (strconv's shortest digits are a Section-variable oracle);
 nesting in arrays/tuples and negation at any depth.
 Tie: three-way comparison code / extracted model (lexer model + literal model) / spec on all 1- and 2-byte strings, integer
@@ -13,7 +14,7 @@ import verif
 TRUSTED = [
     "Coq 8.16.1 kernel and vm_compute; Print Assumptions of every theorem: closed under the global context",
     "oracle (Section variables, explicit premises of the theorems): strconv.ParseFloat / FormatFloat(f,'e',-1,64) return the shortest round-tripping digits and decimal exponent; the %e/%f digit layout of strconv is transcribed by hand; both are exercised by the correspondence (Go's digits cross-checked against Python's repr)",
-    "hand-written models Expr/LiteralModel.v (parseNumber chain, unary-minus folding, FormatLiteral, array/tuple printers) and Lexer/LexerModel.v, tied by correspondence; extraction (ExtrOcamlBasic only)",
+    "hand-written models Expr/LiteralModel.v (parseNumber chain incl. strconv.ParseUint/ParseInt and big.Int.SetString(s, 0), unary-minus folding, FormatLiteral, array/tuple printers) and Lexer/LexerModel.v, tied by correspondence; extraction (ExtrOcamlBasic only)",
 ]
 
 
@@ -32,14 +33,13 @@ def run(rep):
         for k in keys:
             if len(k) >= 3:
                 by_class.setdefault(k[1], []).append(k[2])
-        class_to_known = {"bin-ge-2^64": "big-radix-literal"}
         for cls, srcs in sorted(by_class.items()):
             if cls == "float-text-rejected-by-strconv":
                 continue   # decimal texts that overflow float64: outside the property's quantifier (finite float64 values)
             srcs.sort(key=len)
-            found = found or (rep.is_known(key=class_to_known.get(cls, cls)) is None)
+            found = found or (rep.is_known(key=cls) is None)
             rep.violation("input", "literal class %s prints non-canonically, e.g. %s" % (cls, bytes.fromhex(srcs[0]).decode("utf-8", "replace")[:80]),
-                          {"class": cls, "input_hex": srcs[0], "count": len(srcs)}, key=class_to_known.get(cls, cls))
+                          {"class": cls, "input_hex": srcs[0], "count": len(srcs)}, key=cls)
         spec_bad = [l for l in lines if "CODE!=SPEC" in l]
         for l in spec_bad[:5]:
             found = True
@@ -54,7 +54,7 @@ def run(rep):
                 nums.setdefault(m.group(1), int(m.group(2).replace(",", "")))
         rep.coverage.update({
             "evaluations": nums.get("cases", count), "distinct_nontrivial": nums.get("wf", 0),
-            "rule": "all 65,792 one- and two-byte strings through quote and quote_raw, each also nested in arrays/tuples; every escape; integer boundaries +-{0,1,2^31,2^32,2^53,2^63,2^64}+-2, powers of ten, random 64-bit and a band to 2^70 in decimal/hex/binary/octal spellings with leading zeros and '_'; "
+            "rule": "all 65,792 one- and two-byte strings through quote and quote_raw, each also nested in arrays/tuples; every escape; integer boundaries +-{0,1,2^31,2^32,2^53,2^63,2^64}+-2, powers of ten, random 64-bit and a band to 2^70 in decimal/hex/binary/octal spellings with leading zeros and '_', prefixed literals up to 2^1030 (largest finite float, inf), upper-case prefixes/digits, negated prefixed literals alone and nested; "
                     "float boundaries and random bit patterns in several spellings, negated and in arrays; malformed spellings (code vs model only); distinct_nontrivial = well-formed literal trees on which code = model = spec was checked",
             "samples": [l[:200] for l in lines if l.startswith("   case=")][:4] + [l for l in lines if l.startswith("FINDING class")][:3],
             "summary": [l for l in lines[-12:] if l.strip()][:12], "trusted_base": TRUSTED,
